@@ -54,6 +54,11 @@ def logical_deadlock(pid, interval=1.0):
 
 def classify_stderr(text):
     """Turn a sanitizer report / abort message into a stable key fragment."""
+    # a report whose innermost source-level frame is harness code is a harness bug, not a finding
+    fr = re.findall(r"#\d+ 0x[0-9a-f]+ in [^\n]*? (/[^\s:]+):\d+", text)
+    fr = [p for p in fr if p.startswith("/repo/") or p.startswith("/verif/") or "/kernel/" in p or "/valget/" in p]
+    if fr and fr[0].startswith("/verif/"):
+        return "harness-bug@" + fr[0]
     m = re.search(r"ERROR: AddressSanitizer: ([A-Za-z0-9_-]+)", text)
     frame = ""
     fm = re.findall(r"#\d+ 0x[0-9a-f]+ in ([^\s(]+)[^\n]*?/repo/([^\s:]+)", text)
